@@ -383,26 +383,30 @@ def evalIdent : Nat → Ident → EM Val
 def evalInfix : Nat → Bytes → Option Expr → Option Expr → EM Val
   | 0, _, _, _ => fatal .outOfFuel
   | fuel+1, opb, l, r => do
-    let op := opStr opb
+    let op := opb
     let tolerant := Gen.tolerantOps.contains op
     let lres ← do
       match (← attempt (evalExpr fuel l)) with
       | .ok v => pure v
       | .error e => if tolerant && e.direct then pure Val.nil else throwErr e
-    if op == "&&" && !isTruthy lres then return .bool false
-    if op == "||" && isTruthy lres then return .bool true
+    if op == [38, 38] && !isTruthy lres then return .bool false      -- "&&"
+    if op == [124, 124] && isTruthy lres then return .bool true      -- "||"
     let rres ← do
       match (← attempt (evalExpr fuel r)) with
       | .ok v => pure v
       | .error e => if tolerant && e.direct then pure Val.nil else throwErr e
-    if op == "&&" || op == "||" then return .bool (isTruthy rres)
+    if op == [38, 38] || op == [124, 124] then return .bool (isTruthy rres)
     if lres.isNil || rres.isNil then
       return (← applyOpOut (Gen.nilsOperator op (bothNil lres rres)) "nil")
     match lres with
     | .str ls =>
-      match sprint rres with
-      | some rr => applyOpOut (Gen.stringsOperator op ls rr) "string"
-      | none => unsupported "Sprint of a composite value"
+      -- only `+` (and the pattern of `~=`) takes the printed form of a non-string right operand
+      let rIsString := match rres with | .str _ | .html _ => true | _ => false
+      if !rIsString && op != [43] && op != [126, 61] then fail "unable-to-operate"    -- "+", "~="
+      else
+        match sprint rres with
+        | some rr => applyOpOut (Gen.stringsOperator op ls rr) "string"
+        | none => unsupported "Sprint of a composite value"
     | .int li =>
       match rres with
       | .int ri => applyOpOut (Gen.intsOperator op li ri) "int"
@@ -413,7 +417,7 @@ def evalInfix : Nat → Bytes → Option Expr → Option Expr → EM Val
       | _ => fail "unable-to-operate"
     | .bool _ => applyOpOut (Gen.boolsOperator op (isTruthy lres) (isTruthy rres)) "bool"
     | .list ety addr =>
-      if op == "+" then
+      if op == [43] then
         match ety, rres.ty with
         | .any, _ => do
             let items ← heapSlice addr
